@@ -9,6 +9,6 @@ St == LET b0 == [inc |-> cell.inc]
           b2 == IF cell.sm = Absent THEN b1 ELSE b1 @@ [smallest |-> cell.sm]
       IN IF last.mode = Absent THEN b2 ELSE b2 @@ [mode |-> last.mode]
 Cls == cell.op \o "/" \o (IF last.res.kind = "ok" THEN "accepted" ELSE "rejected") \o "/sm-" \o cell.sm \o "/lg-" \o cell.lg
-CaseOf == [op |-> "Opt." \o cell.op, cls |-> Cls, args |-> [st |-> St], out |-> last.out]
+CaseOf == [op |-> "Opt." \o cell.op, cls |-> Cls, args |-> [st |-> St, operands |-> last.operands], out |-> last.out]
 Emit == ~Done \/ PrintT("CASE " \o ToJson(CaseOf))
 =============================================================================
